@@ -437,6 +437,47 @@ theorem C14_modhash_order_dependent :
     (ModHash.run build (ModHash.new false) [.refresh [e 1, e 2, e 3], .remove (e 2), .add (e 2), .refresh [e 1, e 2, e 3]]).select 1 = .ep (e 2) := by
   decide
 
+/-! ## Weight type in force -/
+
+/-- helper-free statement of the loop: it ends `true` iff it started `true` and every element equals `lastType` -/
+theorem C14_sameTypeLoop_spec (lastType : Int) (ts : List Int) (b : Bool) :
+    sameTypeLoop lastType ts b = (b && ts.all (· == lastType)) := by
+  induction ts generalizing b with
+  | nil => simp [sameTypeLoop]
+  | cons t ts ih =>
+    simp only [sameTypeLoop, ih, List.all_cons]
+    by_cases h : t = lastType
+    · subst h; simp
+    · simp [h]
+
+/-- the weight type `updateActiveEp` puts in force for a non-empty endpoint list is
+    `effectiveWeightType` of that list — the common `WeightType`, `ELoop` when they differ — and
+    does NOT depend on the weight type that was in force before: two managers handed the same
+    registry answer build their selectors with the same `enableWeight`, whatever they saw earlier. -/
+theorem C14_weight_type_pure (types : List Int) (hne : types ≠ []) (prev prev' : Int) :
+    updateWeightType prev types = effectiveWeightType types ∧
+    updateWeightType prev types = updateWeightType prev' types ∧
+    enableWeight (updateWeightType prev types) = enableWeight (updateWeightType prev' types) := by
+  cases types with
+  | nil => exact absurd rfl hne
+  | cons t ts =>
+    have h : updateWeightType prev (t :: ts) = effectiveWeightType (t :: ts) := by
+      simp only [updateWeightType, effectiveWeightType, C14_sameTypeLoop_spec, List.all_cons, Bool.true_and]
+      simp
+    have h' : updateWeightType prev' (t :: ts) = effectiveWeightType (t :: ts) := by
+      simp only [updateWeightType, effectiveWeightType, C14_sameTypeLoop_spec, List.all_cons, Bool.true_and]
+      simp
+    exact ⟨h, by rw [h, h'], by rw [h, h']⟩
+
+/-- the extractor found the shape the model mirrors (`e.weightType = endpoint.ELoop` unconditionally
+    before `if sameType`, or the equivalent `else` branch); without it this file does not build -/
+theorem C14_weight_type_anchor : Consts.conHashWtResetBeforeSameType = 1 ∧
+    Consts.conHashWtELoop ≠ Consts.conHashWtEStaticWeight := by decide
+
+/-- instances: all static ⇒ static weights apply; a loop endpoint among them, or all loop ⇒ they do not -/
+example : enableWeight (updateWeightType 0 [1, 1, 1]) = true ∧ enableWeight (updateWeightType 1 [1, 1, 0]) = false ∧
+    enableWeight (updateWeightType 1 [0, 0]) = false := by decide
+
 /-! ## A call with a hash code in its context -/
 
 /-- the hash-type enumerations of `tars` (message.go) and `tars/selector` agree
